@@ -336,7 +336,7 @@ def spec_cf(cf):
     mlp = [-BIG, 1] if cf['min_prob_norm'] is None else [fx(math.log(cf['min_prob_norm'])), 1]
     return {'onlyEdges': cf['only_edges'], 'ne': cf['ne'], 'W': cf['W'], 'maxDist': md, 'maxDistInit': mdi,
             'minlp': mlp, 'neLen': fx(math.log(0.75)), 'neMax': 100, 'secondOrder': bool(cf['avoid_goingback']),
-            'slack': 8, 'tables': False}
+            'slack': 8, 'tables': False, 'debug': False}
 
 
 # ------------------------------------------------------------------ recording for spec/Models.tla
